@@ -60,7 +60,7 @@ NewestCfgIdx(s) == IF CfgIdxs(s) = {} THEN 0 ELSE SetMax(CfgIdxs(s))
 (*  bad       : set of strings   -- action-level violations seen so far     *)
 
 GhostInit(N) == [elected |-> {}, grants |-> {}, committed |-> << >>,
-                 maxTerm |-> [n \in N |-> 0], acks |-> {}, bad |-> {}]
+                 maxTerm |-> [n \in N |-> 0], acks |-> {}, bad |-> {}, acked |-> [n \in N |-> 0]]
 
 IsGrantEv(ev) == /\ "kind" \in DOMAIN ev /\ ev.kind = "voteReq"
                  /\ "result" \in DOMAIN ev /\ ev.result = "success"
@@ -150,6 +150,22 @@ OnlyVotersLeadStep(before, after, T) ==
     \A n \in T :
         (after[n].up /\ before[n].up /\ after[n].state = "L" /\ before[n].state # "L") => IsVoter(before[n].cfgL, n)
 
+\* ---- C10: what a node acknowledged as stored (success reply to an append whose last index covers it)
+IsAppendAck(ev) == "kind" \in DOMAIN ev /\ ev.kind = "appendReq" /\ "result" \in DOMAIN ev /\ ev.result = "success" /\ "req" \in DOMAIN ev
+AckedAfter(gh, before, after, ev, n) ==
+    LET a0 == gh.acked[n]
+        a1 == IF IsAppendAck(ev) /\ ev.j = n THEN Max(a0, ev.req.prev + ev.req.n) ELSE a0
+        \* a running node may legitimately truncate acknowledged (uncommitted) entries on a conflict, or replace its log by a snapshot
+    IN IF SameInc(before[n], after[n]) THEN Min(a1, Max(Last(after[n]), after[n].snapIdx)) ELSE a1
+\* restart after a crash: starts, keeps what it acknowledged, log contiguous with the snapshot, vote not forgotten
+RestartOKStep(gh, before, after, ev) ==
+    ("kind" \in DOMAIN ev /\ ev.kind = "restart") =>
+        /\ ev.ok
+        /\ Last(after[ev.n]) >= gh.acked[ev.n]
+        /\ after[ev.n].logPrev <= after[ev.n].snapIdx /\ after[ev.n].snapIdx <= Last(after[ev.n])
+        /\ after[ev.n].term >= gh.maxTerm[ev.n]
+        /\ \A g \in gh.grants : (g[1] = ev.n /\ g[2] = after[ev.n].term) => after[ev.n].vote = g[3]
+
 StepViolations(gh, before, after, ev, T) ==
        (IF CommittedStableStep(gh, before, after, T) THEN {} ELSE {"C02_CommittedStable"})
   \cup (IF LeaderAppendOnlyStep(before, after, T) THEN {} ELSE {"C04_LeaderAppendOnly"})
@@ -157,6 +173,7 @@ StepViolations(gh, before, after, ev, T) ==
   \cup (IF TermNeverBackStep(gh, after, T) THEN {} ELSE {"C05_TermMonotone"})
   \cup (IF GrantDurableStep(after, ev) THEN {} ELSE {"C05_GrantDurable"})
   \cup (IF LeaderStickinessStep(before, after, ev) THEN {} ELSE {"C17_LeaderStickiness"})
+  \cup (IF RestartOKStep(gh, before, after, ev) THEN {} ELSE {"C10_RestartOK"})
   \cup (IF ConfigOnlyWhenSafeStep(ev) THEN {} ELSE {"C08_ConfigOnlyWhenSafe"})
   \cup (IF PromoteAfterRoundStep(ev) THEN {} ELSE {"C11_PromoteAfterRound"})
   \cup (IF StopOnlyWhenRemovedStep(ev) THEN {} ELSE {"C11_StopOnlyWhenRemoved"})
@@ -171,6 +188,7 @@ GhostStep(gh, before, after, ev, T) ==
      committed |-> ExtendCommitted(gh, after, ev, T),
      maxTerm   |-> [n \in DOMAIN gh.maxTerm |-> IF n \in T /\ after[n].up THEN Max(gh.maxTerm[n], after[n].term) ELSE gh.maxTerm[n]],
      acks      |-> gh.acks,
+     acked     |-> [n \in DOMAIN gh.acked |-> IF n \in T \/ IsAppendAck(ev) THEN AckedAfter(gh, before, after, ev, n) ELSE gh.acked[n]],
      bad       |-> gh.bad \cup StepViolations(gh, before, after, ev, T)]
 
 --------------------------------------------------------------------------
@@ -271,6 +289,9 @@ C12_LabelOK(gh, ns) ==
         /\ ns[n].snapTerm = gh.committed[ns[n].snapIdx].e.t
         /\ LET c == LedgerCfgIdx(gh, ns[n].snapIdx)
            IN c > 0 => (ns[n].snapCfg.index = c /\ ns[n].snapCfg.nodes = gh.committed[c].e.c)
+
+\* C10: a node restarts consistently after a crash at any point
+C10_RestartOK(gh) == "C10_RestartOK" \notin gh.bad
 
 \* C17(a): leader stickiness
 C17_LeaderStickiness(gh) == "C17_LeaderStickiness" \notin gh.bad
